@@ -1,10 +1,130 @@
 import Driver.Util
+import Hv.Data.Beacon
 
-/-! Placeholder: the line-protocol driver of domain C07 is not written yet. -/
+/-! Line-protocol driver of domain C07 (same ops as `/verif/harness/c07.go`).
+
+    reply for `q`:  `r k1,k2,…`   the model's page, when the model's list is determined up to ties;
+                    `nd`           when it is not (unstable sort / map order decide): then only the
+                                   Spec oracle of checks/C07.py judges the implementation's reply;
+                    `err noswamp`  when no record is alive.
+    `\t#F:<finding>` is appended when the model's own page violates the Spec (exact lines), or
+    names the maintenance events that may have broken the list (`nd` lines). -/
 namespace Driver.C07
+open Hv.Beacon
 
-def run (_args : List String) : IO UInt32 := do
-  IO.eprintln "drv: domain C07 has no driver yet"
-  return 2
+def ctOf : String → Option CT
+  | "void" => some .void | "i8" => some .i8 | "i16" => some .i16 | "i32" => some .i32 | "i64" => some .i64
+  | "u8" => some .u8 | "u16" => some .u16 | "u32" => some .u32 | "u64" => some .u64
+  | "f32" => some .f32 | "f64" => some .f64 | "str" => some .str | "bool" => some .bool
+  | _ => none
+
+def slotOf : String → Option Slot
+  | "key" => some .key | "created" => some .created | "updated" => some .updated | "expire" => some .expire
+  | s => match ctOf s with
+    | some .void => none
+    | some .bool => none
+    | some t => some (.value t)
+    | none => none
+
+def cmpOf (s : String) : Cmp := if s == "le" then .le else .lt
+def resortOf (s : String) : Resort := if s == "own" then .own else if s == "int64" then .int64 else .none
+
+def optT : String → Option (Option Int)
+  | "-" => some none
+  | s => s.toInt?.map some
+
+/-- executable Spec oracle on the *model's* page (the implementation's page is judged by
+    checks/C07.py, independently) -/
+def specOk (res : List Rec) (q : Query) (store : List Rec) : Bool :=
+  let carriers := store.filter (carries q.slot)
+  let sorted := isort (lessPure q.slot q.asc) carriers
+  let expected := page q (inRange q sorted)
+  let same (a b : Rec) : Bool :=
+    match q.slot with
+    | .key => a.key == b.key
+    | .value _ => a.val == b.val
+    | s => ts s a == ts s b
+  res.length == expected.length &&
+  (List.zip res expected).all (fun ab => same ab.1 ab.2) &&
+  res.all (fun r => carriers.contains r) &&
+  (res.map (·.key)).eraseDups.length == res.length
+
+def bsAllLt (cfg : Cfg) : Bool :=
+  cfg.bsAscFrom == .lt && cfg.bsAscTo == .lt && cfg.bsDescTo == .lt && cfg.bsDescFrom == .lt
+
+def findingOf (cfg : Cfg) (q : Query) (store : List Rec) (causes : List String) : List String :=
+  let stale (id : String) := if causes.isEmpty then [] else [id]
+  let window := if q.slot.isTime && (q.fromT.isSome || q.toT.isSome) && !bsAllLt cfg then ["C07-window-bounds-operator"] else []
+  let cold (f : Bool) := if !f && store.any (fun r => !carries q.slot r) then ["C07-cold-build-no-zero-filter"] else []
+  match q.slot with
+  | .value t =>
+    if store.any (fun r => r.ct != t) then ["C07-value-index-mixed-types"]
+    else
+      (if causes.contains "mixed" then ["C07-value-index-mixed-types"] else []) ++
+      (if causes.contains "insert" then ["C07-value-insert-wrong-comparator"] else []) ++
+      (if causes.contains "update" then ["C07-value-update-stale"] else [])
+  | .created => stale "C07-created-update-stale" ++ window ++ cold cfg.coldFilterCreated
+  | .updated => stale "C07-updated-update-stale" ++ window ++ cold cfg.coldFilterUpdated
+  | .expire => stale "C07-expire-index-stale" ++ window ++ cold cfg.coldFilterExpire
+  | .key => stale "C07-key-index-stale"
+
+def flagStr (fs : List String) : String := String.join (fs.map (fun f => "\t#F:" ++ f))
+
+structure DSt where
+  cfg : Cfg
+  s : St
+
+def step (d : DSt) (line : String) : DSt × String :=
+  match line.splitOn " " with
+  | ["case", _] => ({ d with s := St.init }, line)
+  | ["set", k, t, v, c, u, e] =>
+    match ctOf t, v.toInt?, c.toInt?, u.toInt?, e.toInt? with
+    | some ct, some v, some c, some u, some e =>
+      ({ d with s := stepSet d.cfg d.s { key := k, ct := ct, val := v, created := c, updated := u, expire := e } }, "ok")
+    | _, _, _, _, _ => (d, "bad-op")
+  | ["del", k] => ({ d with s := stepDel d.s k }, "ok")
+  | ["q", idx, ord, fr, lim, ft, tt, _via] =>
+    match slotOf idx, fr.toNat?, lim.toNat?, optT ft, optT tt with
+    | some sl, some fr, some lim, some ft, some tt =>
+      if ord != "asc" && ord != "desc" then (d, "bad-op") else
+      let q : Query := { slot := sl, asc := ord == "asc", from_ := fr, limit := lim, fromT := ft, toT := tt }
+      match answer d.cfg d.s q with
+      | none => (d, "err noswamp")
+      | some res =>
+        let s' := stepBuild d.cfg d.s q
+        let p := s'.pairs (phys d.cfg q.slot)
+        let d' := { d with s := s' }
+        if p.nd || p.broken then
+          (d', "nd" ++ flagStr (findingOf d.cfg q s'.store (if p.broken then "mixed" :: p.causes else p.causes)))
+        else
+          let ok := specOk res q s'.store
+          let fl := if ok then [] else
+            (match findingOf d.cfg q s'.store p.causes with
+             | [] => ["C07-unexplained"]
+             | fs => fs)
+          (d', "r " ++ ",".intercalate (res.map (·.key)) ++ flagStr fl)
+    | _, _, _, _, _ => (d, "bad-op")
+  | _ => (d, "bad-op")
+
+def yes (kv : List (String × String)) (k : String) : Bool := arg kv k == "yes"
+
+def run (args : List String) : IO UInt32 := do
+  let kv := parseArgs args
+  let cfg : Cfg := {
+    bsAscFrom := cmpOf (arg kv "bsAscFrom"), bsAscTo := cmpOf (arg kv "bsAscTo"),
+    bsDescTo := cmpOf (arg kv "bsDescTo"), bsDescFrom := cmpOf (arg kv "bsDescFrom"),
+    resortKey := resortOf (arg kv "resortKey"), resortCreated := resortOf (arg kv "resortCreated"),
+    resortUpdated := resortOf (arg kv "resortUpdated"), resortExpire := resortOf (arg kv "resortExpire"),
+    resortValue := resortOf (arg kv "resortValue"),
+    coldFilterCreated := yes kv "coldFilterCreated", coldFilterUpdated := yes kv "coldFilterUpdated",
+    coldFilterExpire := yes kv "coldFilterExpire", coldFilterValueType := yes kv "coldFilterValueType",
+    addGuardCreated := yes kv "addGuardCreated", addGuardUpdated := yes kv "addGuardUpdated",
+    addGuardExpire := yes kv "addGuardExpire", addGuardValueType := yes kv "addGuardValueType",
+    updRefreshCreated := yes kv "updRefreshCreated", updRefreshUpdated := yes kv "updRefreshUpdated",
+    updRefreshValue := yes kv "updRefreshValue", updRefreshExpireOnFlag := yes kv "updRefreshExpireOnFlag",
+    typeChangeDetected := yes kv "typeChangeDetected", valueShared := yes kv "valueShared",
+    flagsSticky := yes kv "flagsSticky" }
+  lineLoop step { cfg := cfg, s := St.init }
+  return 0
 
 end Driver.C07
